@@ -113,7 +113,10 @@ func (s *state) walk(node ast.Node) {
 	case *ast.TemplateNode:
 		s.visitTemplate(node)
 	case *ast.ListNode:
+		// a block is a scope: a let is visible only until its block ends
+		s.scope.push()
 		s.visitChildren(node)
+		s.scope.pop()
 
 		// Output nodes ----------
 	case *ast.RawTextNode:
